@@ -462,10 +462,10 @@ fn model_raw(op: &Op, r: &Regs, epsw: f64) -> MOut {
         Op::Get(a, i, j) => val_s(m[*a].at(*i, *j), 0.0, 0.0),
         Op::Dot(a, b) => {
             let (x, y) = (&m[*a], &m[*b]);
-            if x.d.len() != y.d.len() {
+            if x.d.len() != y.d.len() || (x.r != 1 && x.c != 1) || (y.r != 1 && y.c != 1) {
+                // dot is defined between two vectors (row or column) of equal length; everything else is an
+                // incompatible pairing and must be rejected, not read in storage order
                 Reject
-            } else if (x.r != 1 && x.c != 1) || (y.r != 1 && y.c != 1) {
-                Unspecified("dot of non-vector operands")
             } else {
                 let n = x.d.len() as f64;
                 val_s(dotv(&x.d, &y.d), (n + 1.0) * csum(x.d.iter().zip(y.d.iter()).map(|(p, q)| (p * q).abs())), 2.0)
